@@ -156,7 +156,7 @@ def prop_line(case):
 def st_case(draw):
     r = draw(st.randoms(use_true_random=False))
     v = gen.choice(r, ["gfa1", "gfa2"])
-    doc = gen.build_gfa1(r) if v == "gfa1" else gen.build_gfa2(r)
+    doc = gen.build_gfa1(r) if v == "gfa1" else gen.build_gfa2(r, {"zero_len": 0.05})
     cfg = {"vlevel": r.randrange(4), "explicit": gen.chance(r, 0.5), "entry": gen.choice(r, ENTRIES)}
     return {"doc": {"version": doc["version"], "lines": doc["lines"]}, "cfg": cfg}
 
